@@ -2,6 +2,7 @@
 from . import gateway_units as gu, handlers_native as hn, handlers_common as hc
 
 PROP = "C03"
+ASSUMPTION_CHECKS = ['A-STR', 'A-MM', 'A-AV']
 MIN_OBLIGATIONS = 200
 TRUSTED = hc.HANDLER_TRUSTED + ["A-MM: marshmallow load loop (pyvc/mmalgo.py)", "A-STR lemma schemas (pyvc/strings.py)"]
 ASSUMPTIONS = hc.HANDLER_ASSUMPTIONS + [
